@@ -27,7 +27,9 @@ def record_vm(ck, wd, parts, variant='verif', extra_flags=(), extra_args=()):
 def groups(lines):
     grp, g = [], -1
     for l in lines:
-        if '"first":true' in l or not l.startswith('{"e":"run"'):
+        if l.startswith('{"e":"codebase"'):
+            pass          # stays in the group of the preceding codelen line (the budget uses the learnt maximal length)
+        elif '"first":true' in l or not l.startswith('{"e":"run"'):
             g += 1
         grp.append(g)
     return grp
